@@ -1118,6 +1118,27 @@ Proof.
       intros _ w'' Hi''. fsteps. exact Hi''.
 Qed.
 
+Lemma cover_del_del : forall (refs blogs : amap bytes) d,
+  am_sorted refs ->
+  (forall k, am_mem refs k = true -> am_mem blogs k = true) ->
+  forall k, am_mem (am_del refs d) k = true -> am_mem (am_del blogs d) k = true.
+Proof.
+  intros refs blogs d Hs Hc k Hk. rewrite am_mem_del in Hk by exact Hs.
+  apply andb_true_iff in Hk. destruct Hk as [Hne Hk]. apply negb_true_iff, bytes_eqb_neq in Hne.
+  rewrite am_mem_del_other by congruence. apply Hc. exact Hk.
+Qed.
+
+Lemma cover_rename : forall (refs blogs : amap bytes) p n id l1 l2,
+  am_sorted refs ->
+  (forall k, am_mem refs k = true -> am_mem blogs k = true) ->
+  forall k, am_mem (am_set (am_del refs p) n id) k = true ->
+            am_mem (am_set (am_set (am_del blogs p) n l1) n l2) k = true.
+Proof.
+  intros refs blogs p n id l1 l2 Hs Hc k Hk. rewrite am_mem_set in Hk. rewrite !am_mem_set.
+  destruct (bytes_eqb n k); [reflexivity|]. cbn [orb] in Hk |- *.
+  apply (cover_del_del refs blogs p Hs Hc). exact Hk.
+Qed.
+
 Lemma cmd_branch_keeps : forall e c args lst rn dl w, Inv2 w -> keeps w (cmd_branch e c args lst rn dl).
 Proof.
   intros e c args lst rn dl w Hi. unfold keeps, cmd_branch. cbv zeta.
@@ -1132,5 +1153,1059 @@ Proof.
   intros out w2 Hi2. apply ffat_bind with (R := fun _ => Inv2).
   { (* rename *)
     fsteps; try assumption.
-    Show. all: admit. }
-Abort.
+    - match goal with H : am_mem (w_refs w2) (w_head w2) = true |- _ =>
+        apply am_mem_get in H; destruct H as [id Hid] end.
+      destruct Hi2 as [Hs Hc]; split; unfold refs_sorted, blogs_cover_refs;
+        cbn [apply_effect]; rewrite Hid; wsimpl.
+      + apply am_set_sorted, am_del_sorted. exact Hs.
+      + apply cover_rename; assumption.
+    - (* the late log check cannot fail *)
+      match goal with
+      | H : am_mem (w_refs w2) (w_head w2) = true, H' : am_mem (w_blogs w2) (w_head w2) = false |- _ =>
+          rewrite (proj2 Hi2 _ H) in H'; discriminate H'
+      end. }
+  intros _ w3 Hi3. apply ffat_bind with (R := fun _ => Inv2).
+  { (* delete *)
+    fsteps; try assumption.
+    - destruct Hi3 as [Hs Hc]; split; unfold refs_sorted, blogs_cover_refs; wsimpl.
+      + apply am_del_sorted. exact Hs.
+      + apply cover_del_del; assumption.
+    - match goal with
+      | H : am_mem (w_refs w3) dl = true, H' : am_mem (w_blogs w3) dl = false |- _ =>
+          rewrite (proj2 Hi3 _ H) in H'; discriminate H'
+      end. }
+  intros _ w4 Hi4. fsteps. exact Hi4.
+Qed.
+
+(* the context was loaded from this very world *)
+Definition headc_loads (w : world) (c : ctx) : Prop :=
+  forall hid cm, x_headc c = Some (hid, cm) -> get_commit (w_objs w) hid = Some cm.
+
+Lemma ctx_of_loads : forall w c, ctx_of w = Some c -> headc_loads w c.
+Proof.
+  intros w c Hc hid cm Hh. apply ctx_of_headc in Hc. rewrite Hh in Hc.
+  apply head_commit_some in Hc. tauto.
+Qed.
+
+Lemma cmd_switch_keeps : forall e c args cr w,
+  headc_loads w c -> Inv2 w -> keeps w (cmd_switch e c args cr).
+Proof.
+  intros e c args cr w Hl Hi. unfold keeps, cmd_switch, head_update.
+  apply ffat_bind_guard; [intros _ | intros _; exact Hi].
+  apply ffat_bind_guard; [intros _ | intros _; exact Hi].
+  apply ffat_bind_guard; [intros _ | intros _; exact Hi].
+  apply ffat_bind with (R := fun _ w' => Inv2 w' /\ w_objs w' = w_objs w).
+  { fsteps; cbv beta.
+    all: repeat match goal with
+         | |- _ /\ w_objs _ = _ => split; [|reflexivity]
+         | |- Inv2 (apply_effect _ _) => apply Inv2_safe; [|exact Logic.I]
+         end; exact Hi. }
+  intros _ w1 [Hi1 Ho1]. apply ffat_bind with (R := fun _ => Inv2).
+  { fsteps; try assumption.
+    - destruct Hi1 as [Hs Hc]; split; unfold refs_sorted, blogs_cover_refs; wsimpl;
+        [apply am_set_sorted; exact Hs | apply cover_set_set; exact Hc].
+    - (* the commit just loaded loads again *)
+      match goal with
+      | Hg : am_get (w_refs (apply_effect (ESetRef _ _) w1)) _ = Some ?a,
+        Hn : get_commit _ ?a = None |- _ =>
+          cbn [apply_effect set_refs w_refs w_objs] in Hg, Hn; rewrite am_get_set_same in Hg;
+          injection Hg as <-; rewrite Ho1 in Hn
+      end.
+      match goal with Hh : x_headc c = Some _ |- _ => rewrite (Hl _ _ Hh) in * end. discriminate.
+    - match goal with
+      | Hg : am_get (w_refs (apply_effect (ESetRef _ _) w1)) _ = None |- _ =>
+          cbn [apply_effect set_refs w_refs] in Hg; rewrite am_get_set_same in Hg; discriminate Hg
+      end. }
+  intros _ w2 Hi2. fsteps. exact Hi2.
+Qed.
+
+Lemma dispatch_keeps : forall e c x w, ctx_of w = Some x -> Inv2 w -> keeps w (dispatch e c x).
+Proof.
+  intros e c x w Hx Hi. destruct c; cbn [dispatch].
+  - apply ffat_fail. exact Hi.
+  - apply keeps_safe; [apply cmd_config_safe | apply cmd_config_traced | exact Hi].
+  - apply keeps_safe; [apply cmd_add_safe | apply cmd_add_traced | exact Hi].
+  - apply keeps_safe; [apply cmd_rm_safe | apply cmd_rm_traced | exact Hi].
+  - apply cmd_commit_keeps. exact Hi.
+  - apply keeps_safe; [apply cmd_status_safe | apply cmd_status_traced | exact Hi].
+  - apply cmd_branch_keeps. exact Hi.
+  - apply cmd_switch_keeps; [apply ctx_of_loads; exact Hx | exact Hi].
+  - apply keeps_safe; [apply cmd_reset_safe | apply cmd_reset_traced | exact Hi].
+  - apply keeps_safe; [apply cmd_restore_safe | apply cmd_restore_traced | exact Hi].
+  - apply keeps_safe; [apply cmd_update_ref_safe | apply cmd_update_ref_traced | exact Hi].
+  - apply keeps_safe; [apply cmd_log_safe | apply cmd_log_traced | exact Hi].
+  - apply keeps_safe; [apply cmd_reflog_safe | apply cmd_reflog_traced | exact Hi].
+  - apply keeps_safe; [apply cmd_cat_file_safe | apply cmd_cat_file_traced | exact Hi].
+  - apply keeps_safe; [apply cmd_hash_object_safe | apply cmd_hash_object_traced | exact Hi].
+  - apply keeps_safe; [apply cmd_ls_files_safe | apply cmd_ls_files_traced | exact Hi].
+  - apply keeps_safe; [apply cmd_rev_parse_safe | apply cmd_rev_parse_traced | exact Hi].
+  - apply keeps_safe; [apply cmd_write_tree_safe | apply cmd_write_tree_traced | exact Hi].
+Qed.
+
+Lemma run_cmd_keeps : forall e c w, Inv2 w -> keeps w (run_cmd e c).
+Proof.
+  intros e c w Hi t. rewrite run_cmd_eq. cbn [ms_w].
+  assert (Herr : exists (r : res (list bytes)) w' t',
+             (@Err (list bytes), mkMS w t None) = (r, mkMS w' t' None) /\
+             match r with Ok _ => Inv2 w' | _ => Inv2 w' end).
+  { exists Err, w, t. auto. }
+  destruct c;
+    try (destruct (w_inited w); [|exact Herr];
+         destruct (ctx_of w) as [x|] eqn:Ex; [|exact Herr];
+         apply dispatch_keeps; assumption).
+  apply (keeps_safe _ cmd_init w cmd_init_safe cmd_init_traced Hi).
+Qed.
+
+Theorem Inv2_step : forall a w, Inv2 w -> Inv2 (step_w a w).
+Proof.
+  intros [e c|u] w Hi; unfold step_w.
+  - rewrite step_cmd_eq. cbn [fst].
+    destruct (run_cmd_keeps e c w Hi []) as (r & w' & t' & Hrun & Hr).
+    rewrite Hrun. cbn [snd ms_w]. destruct r; exact Hr.
+  - cbn [step fst]. destruct Hi as [Hs Hc]. split.
+    + unfold refs_sorted. rewrite w_refs_apply_edit. exact Hs.
+    + unfold blogs_cover_refs. rewrite w_refs_apply_edit, w_blogs_apply_edit. exact Hc.
+Qed.
+
+Theorem Inv2_run_from : forall h w, Inv2 w -> Inv2 (run h w).
+Proof.
+  induction h as [|a h IH]; intros w Hi.
+  - exact Hi.
+  - rewrite run_cons. apply IH. apply Inv2_step. exact Hi.
+Qed.
+
+Lemma Inv2_empty : Inv2 w_empty.
+Proof. split; [apply am_sorted_nil | intros n Hn; discriminate Hn]. Qed.
+
+Theorem blogs_cover_refs_step : forall a w,
+  refs_sorted w -> blogs_cover_refs w -> blogs_cover_refs (step_w a w).
+Proof. intros a w Hs Hc. apply Inv2_step. split; assumption. Qed.
+
+Theorem blogs_cover_refs_run : forall h, blogs_cover_refs (run h w_empty).
+Proof. intro h. apply (Inv2_run_from h w_empty Inv2_empty). Qed.
+
+(* ================================================================== *)
+(** * 5. The abstract machine and the refinement theorems *)
+
+Definition astate : Type := (bytes * amap bytes)%type.       (* current branch, branches *)
+Definition abs (w : world) : astate := (w_head w, w_refs w).
+
+(* "HEAD has a commit" is, abstractly, "the current branch exists" *)
+Definition a_branch (name : bytes) (s : astate) : option astate :=
+  match am_get (snd s) (fst s) with
+  | Some hid =>
+      if negb (am_mem (snd s) name) && valid_branch_name name
+      then Some (fst s, am_set (snd s) name hid) else None
+  | None => None
+  end.
+
+Definition a_delete (name : bytes) (s : astate) : option astate :=
+  if negb (bytes_eqb name (fst s)) && am_mem (snd s) name
+  then Some (fst s, am_del (snd s) name) else None.
+
+Definition a_rename (new : bytes) (s : astate) : option astate :=
+  match am_get (snd s) (fst s) with
+  | Some hid =>
+      if negb (am_mem (snd s) new) && valid_branch_name new
+      then Some (new, am_set (am_del (snd s) (fst s)) new hid) else None
+  | None => None
+  end.
+
+Definition a_switch (name : bytes) (s : astate) : option astate :=
+  match am_get (snd s) (fst s) with
+  | Some _ => if am_mem (snd s) name then Some (name, snd s) else None
+  | None => None
+  end.
+
+Definition a_switch_create (name : bytes) (s : astate) : option astate :=
+  match a_branch name s with
+  | Some s1 => a_switch name s1
+  | None => None
+  end.
+
+Definition a_update_ref (loads : bytes -> bool) (r h : bytes) (s : astate) : option astate :=
+  if re_search re_branchRegexp r && Nat.eqb (length h) 40 && forallb is_lower_hex h then
+    match unhex h with
+    | Some id =>
+        if loads id && am_mem (snd s) (ref_leaf r)
+        then Some (ref_leaf r, am_set (snd s) (ref_leaf r) id) else None
+    | None => None
+    end
+  else None.
+
+Definition commit_loads (w : world) (id : bytes) : bool :=
+  match get_commit (w_objs w) id with Some _ => true | None => false end.
+
+(* [switch --create] is [branch] followed by [switch] *)
+Lemma a_switch_create_eq : forall name s,
+  a_switch_create name s =
+  match am_get (snd s) (fst s) with
+  | Some hid =>
+      if negb (am_mem (snd s) name) && valid_branch_name name
+      then Some (name, am_set (snd s) name hid) else None
+  | None => None
+  end.
+Proof.
+  intros name [cur br]. unfold a_switch_create, a_branch, a_switch. cbn [fst snd].
+  destruct (am_get br cur) as [hid|] eqn:Ecur; [|reflexivity].
+  destruct (am_mem br name) eqn:Em; cbn [negb andb]; [reflexivity|].
+  destruct (valid_branch_name name); [|reflexivity]. cbn [fst snd].
+  assert (Hne : cur <> name).
+  { intro Heq. subst name. unfold am_mem in Em. rewrite Ecur in Em. discriminate Em. }
+  rewrite am_get_set_other by exact Hne. rewrite Ecur, am_mem_set_same. reflexivity.
+Qed.
+
+(* ---------- what the abstract operations do to the branch map ---------- *)
+Lemma am_length_set_new : forall V (m : amap V) k v,
+  am_mem m k = false -> length (am_set m k v) = S (length m).
+Proof.
+  intros V. induction m as [|[k0 v0] r IH]; intros k v Hm; cbn [am_set].
+  - reflexivity.
+  - unfold am_mem in Hm. cbn [am_get] in Hm. destruct (bytes_eqb k0 k) eqn:E0; [discriminate Hm|].
+    destruct (blt k k0); [reflexivity|]. cbn [length]. rewrite IH; [reflexivity | exact Hm].
+Qed.
+
+(* (needs sortedness: [am_set [(b,1);(a,2)] a v] has three elements) *)
+Lemma am_length_set_old : forall V (m : amap V) k v,
+  am_sorted m -> am_mem m k = true -> length (am_set m k v) = length m.
+Proof.
+  intros V. induction m as [|[k0 v0] r IH]; intros k v Hs Hm; cbn [am_set].
+  - discriminate Hm.
+  - unfold am_mem in Hm. cbn [am_get] in Hm. apply am_sorted_cons in Hs. destruct Hs as [Hs Hf].
+    destruct (bytes_eqb k0 k) eqn:E0; [reflexivity|].
+    destruct (blt k k0) eqn:El.
+    + rewrite am_get_lt_head in Hm; [discriminate Hm|].
+      apply (Forall_impl (fun kv => blt k (fst kv) = true)) with (2 := Hf).
+      intros kv Hlt. apply (blt_trans k k0 (fst kv)); assumption.
+    + cbn [length]. rewrite IH; [reflexivity | exact Hs | exact Hm].
+Qed.
+
+(* creating adds exactly one branch, at the commit of the current one; every
+   other branch keeps its commit; HEAD stays *)
+Theorem a_branch_spec : forall name s s',
+  a_branch name s = Some s' ->
+  fst s' = fst s /\
+  am_get (snd s) name = None /\
+  am_get (snd s') name = am_get (snd s) (fst s) /\
+  (forall n, n <> name -> am_get (snd s') n = am_get (snd s) n) /\
+  length (snd s') = S (length (snd s)).
+Proof.
+  intros name [cur br] s' H. unfold a_branch in H. cbn [fst snd] in H |- *.
+  destruct (am_get br cur) as [hid|]; [|discriminate H].
+  destruct (am_mem br name) eqn:Em; cbn [negb andb] in H; [discriminate H|].
+  destruct (valid_branch_name name); [|discriminate H]. injection H as <-. cbn [fst snd].
+  split; [reflexivity|]. split; [apply am_mem_false; exact Em|].
+  split; [apply am_get_set_same|]. split; [intros n Hn; apply am_get_set_other; exact Hn|].
+  apply am_length_set_new. exact Em.
+Qed.
+
+(* deleting removes exactly that branch *)
+Theorem a_delete_spec : forall name s s',
+  am_sorted (snd s) -> a_delete name s = Some s' ->
+  fst s' = fst s /\ name <> fst s /\
+  am_get (snd s') name = None /\
+  (forall n, n <> name -> am_get (snd s') n = am_get (snd s) n) /\
+  S (length (snd s')) = length (snd s).
+Proof.
+  intros name [cur br] s' Hs H. unfold a_delete in H. cbn [fst snd] in H, Hs |- *.
+  destruct (bytes_eqb name cur) eqn:Ec; cbn [negb andb] in H; [discriminate H|].
+  destruct (am_mem br name) eqn:Em; [|discriminate H]. injection H as <-. cbn [fst snd].
+  split; [reflexivity|]. split; [apply bytes_eqb_neq; exact Ec|].
+  split; [apply am_get_del_same; exact Hs|].
+  split; [intros n Hn; apply am_get_del_other; exact Hn|].
+  apply am_length_del. exact Em.
+Qed.
+
+(* renaming: the old name is gone, the new one holds the same commit, HEAD
+   follows, every other branch keeps its commit, the number of branches stays *)
+Theorem a_rename_spec : forall new s s',
+  am_sorted (snd s) -> a_rename new s = Some s' ->
+  fst s' = new /\ new <> fst s /\
+  am_get (snd s') new = am_get (snd s) (fst s) /\
+  am_get (snd s') (fst s) = None /\
+  (forall n, n <> new -> n <> fst s -> am_get (snd s') n = am_get (snd s) n) /\
+  length (snd s') = length (snd s).
+Proof.
+  intros new [cur br] s' Hs H. unfold a_rename in H. cbn [fst snd] in H, Hs |- *.
+  destruct (am_get br cur) as [hid|] eqn:Ecur; [|discriminate H].
+  destruct (am_mem br new) eqn:Em; cbn [negb andb] in H; [discriminate H|].
+  destruct (valid_branch_name new); [|discriminate H]. injection H as <-. cbn [fst snd].
+  assert (Hne : new <> cur).
+  { intro Heq. subst new. unfold am_mem in Em. rewrite Ecur in Em. discriminate Em. }
+  split; [reflexivity|]. split; [exact Hne|].
+  split; [apply am_get_set_same|].
+  split; [rewrite am_get_set_other by congruence; apply am_get_del_same; exact Hs|].
+  split; [intros n Hn Hc; rewrite am_get_set_other by exact Hn; apply am_get_del_other; exact Hc|].
+  rewrite am_length_set_new.
+  - apply am_length_del. unfold am_mem. rewrite Ecur. reflexivity.
+  - rewrite am_mem_del_other by exact Hne. exact Em.
+Qed.
+
+Theorem a_switch_spec : forall name s s',
+  a_switch name s = Some s' -> fst s' = name /\ snd s' = snd s /\ am_mem (snd s) name = true.
+Proof.
+  intros name [cur br] s' H. unfold a_switch in H. cbn [fst snd] in H |- *.
+  destruct (am_get br cur); [|discriminate H].
+  destruct (am_mem br name) eqn:Em; [|discriminate H]. injection H as <-. auto.
+Qed.
+
+(* update-ref: the named existing branch now holds the given commit; every
+   other branch keeps its own; the number of branches stays; HEAD names it *)
+Theorem a_update_ref_spec : forall loads r h s s',
+  am_sorted (snd s) -> a_update_ref loads r h s = Some s' ->
+  exists id, unhex h = Some id /\ loads id = true /\ am_mem (snd s) (ref_leaf r) = true /\
+    fst s' = ref_leaf r /\
+    am_get (snd s') (ref_leaf r) = Some id /\
+    (forall n, n <> ref_leaf r -> am_get (snd s') n = am_get (snd s) n) /\
+    length (snd s') = length (snd s).
+Proof.
+  intros loads r h [cur br] s' Hs H. unfold a_update_ref in H. cbn [fst snd] in H, Hs |- *.
+  destruct (re_search re_branchRegexp r && Nat.eqb (length h) 40 && forallb is_lower_hex h); [|discriminate H].
+  destruct (unhex h) as [id|]; [|discriminate H]. exists id.
+  destruct (loads id); cbn [andb] in H; [|discriminate H].
+  destruct (am_mem br (ref_leaf r)) eqn:Em; [|discriminate H]. injection H as <-. cbn [fst snd].
+  split; [reflexivity|]. split; [reflexivity|]. split; [reflexivity|]. split; [reflexivity|].
+  split; [apply am_get_set_same|]. split; [intros n Hn; apply am_get_set_other; exact Hn|].
+  apply am_length_set_old; assumption.
+Qed.
+
+(* ---------- the concrete commands refine the abstract machine ---------- *)
+(* the six operations touch HEAD, the branch files and the logs, nothing else *)
+Definition frame (w w' : world) : Prop :=
+  w_inited w' = w_inited w /\ w_index w' = w_index w /\ w_objs w' = w_objs w /\
+  w_coll w' = w_coll w /\ w_lcfg w' = w_lcfg w /\ w_gcfg w' = w_gcfg w /\
+  w_files w' = w_files w /\ w_dirs w' = w_dirs w.
+
+(* every branch names a commit that loads (first clause of [Inv.Connected]) *)
+Definition refs_commits_ok (w : world) : Prop :=
+  forall n id, am_get (w_refs w) n = Some id -> exists c, get_commit (w_objs w) id = Some c.
+
+Lemma loaded_headc : forall w x,
+  ctx_of w = Some x ->
+  match x_headc x with
+  | Some (hid, cm) => am_get (w_refs w) (w_head w) = Some hid /\ get_commit (w_objs w) hid = Some cm
+  | None => am_get (w_refs w) (w_head w) = None
+  end.
+Proof.
+  intros w x Hx. apply ctx_of_headc in Hx. destruct (x_headc x) as [[hid cm]|].
+  - apply head_commit_some. exact Hx.
+  - apply head_commit_none. exact Hx.
+Qed.
+
+Ltac frame_tac := unfold frame; autorewrite with wfields; repeat split; reflexivity.
+
+Lemma triple_inv : forall A B C (a a' : A) (b b' : B) (c c' : C),
+  (a, b, c) = (a', b', c') -> a = a' /\ b = b' /\ c = c'.
+Proof. intros A B C a a' b b' c c' H. inversion H. auto. Qed.
+
+(* ([injection] would normalise the worlds) *)
+Ltac inj3 H :=
+  apply triple_inv in H;
+  let Hw := fresh in let Ho := fresh in let Ht := fresh in
+  destruct H as (Hw & Ho & Ht); rewrite <- ?Hw, <- ?Ho, <- ?Ht; clear Hw Ho Ht.
+
+Theorem branch_create_refines : forall e name w x w' o tr,
+  w_inited w = true -> ctx_of w = Some x ->
+  step (ACmd e (CBranch [name] false [] [])) w = (w', o, tr) ->
+  match a_branch name (abs w) with
+  | Some s' => o = OOk [] /\ abs w' = s' /\ frame w w'
+  | None => o = OErr /\ tr = [] /\ w' = w
+  end.
+Proof.
+  intros e name w x w' o tr Hi Hx Hstep.
+  rewrite (step_loaded e _ w x) in Hstep by (try discriminate; assumption).
+  cbn [dispatch] in Hstep. rewrite cmd_branch_create_eq in Hstep.
+  pose proof (loaded_headc w x Hx) as Hh. unfold a_branch, abs. cbn [fst snd].
+  destruct (x_headc x) as [[hid cm]|].
+  - destruct Hh as [Hg _]. rewrite Hg.
+    destruct (negb (am_mem (w_refs w) name) && valid_branch_name name);
+      cbn [fst snd ms_w ms_trace outcome_of app] in Hstep; inj3 Hstep.
+    + split; [reflexivity|]. unfold branch_create_trace. split; [|frame_tac].
+      autorewrite with wfields. reflexivity.
+    + auto.
+  - rewrite Hh. cbn [fst snd ms_w ms_trace outcome_of] in Hstep. inj3 Hstep. auto.
+Qed.
+
+Theorem branch_delete_refines : forall e d w x w' o tr,
+  w_inited w = true -> ctx_of w = Some x -> is_nil d = false -> blogs_cover_refs w ->
+  step (ACmd e (CBranch [] false [] d)) w = (w', o, tr) ->
+  match a_delete d (abs w) with
+  | Some s' => o = OOk [] /\ abs w' = s' /\ frame w w'
+  | None => o = OErr /\ tr = [] /\ w' = w
+  end.
+Proof.
+  intros e d w x w' o tr Hi Hx Hd Hc Hstep.
+  rewrite (step_loaded e _ w x) in Hstep by (try discriminate; assumption).
+  cbn [dispatch] in Hstep. rewrite cmd_branch_delete_eq in Hstep by exact Hd.
+  unfold a_delete, abs. cbn [fst snd].
+  destruct (negb (bytes_eqb d (w_head w)) && am_mem (w_refs w) d) eqn:Econd.
+  - apply andb_true_iff in Econd. destruct Econd as [_ Hm]. rewrite (Hc d Hm) in Hstep.
+    cbn [fst snd ms_w ms_trace outcome_of app] in Hstep. inj3 Hstep.
+    split; [reflexivity|]. split; [|frame_tac]. autorewrite with wfields. reflexivity.
+  - cbn [fst snd ms_w ms_trace outcome_of] in Hstep. inj3 Hstep. auto.
+Qed.
+
+Theorem branch_rename_refines : forall e new w x w' o tr,
+  w_inited w = true -> ctx_of w = Some x -> is_nil new = false -> blogs_cover_refs w ->
+  step (ACmd e (CBranch [] false new [])) w = (w', o, tr) ->
+  match a_rename new (abs w) with
+  | Some s' => o = OOk [] /\ abs w' = s' /\ frame w w'
+  | None => o = OErr /\ tr = [] /\ w' = w
+  end.
+Proof.
+  intros e new w x w' o tr Hi Hx Hn Hc Hstep.
+  rewrite (step_loaded e _ w x) in Hstep by (try discriminate; assumption).
+  cbn [dispatch] in Hstep. rewrite cmd_branch_rename_eq in Hstep by exact Hn.
+  pose proof (loaded_headc w x Hx) as Hh. unfold a_rename, abs. cbn [fst snd].
+  destruct (x_headc x) as [[hid cm]|].
+  - destruct Hh as [Hg _]. rewrite Hg.
+    assert (Hm : am_mem (w_refs w) (w_head w) = true) by (unfold am_mem; rewrite Hg; reflexivity).
+    rewrite Hm, andb_true_r, (Hc _ Hm) in Hstep.
+    destruct (negb (am_mem (w_refs w) new) && valid_branch_name new);
+      cbn [fst snd ms_w ms_trace outcome_of app] in Hstep; inj3 Hstep.
+    + split; [reflexivity|]. unfold rename_trace, rename_trace1, rename_trace2. cbn [app].
+      split; [|frame_tac]. autorewrite with wfields. rewrite Hg. reflexivity.
+    + auto.
+  - rewrite Hh. cbn [fst snd ms_w ms_trace outcome_of] in Hstep. inj3 Hstep. auto.
+Qed.
+
+Theorem switch_refines : forall e a w x w' o tr,
+  w_inited w = true -> ctx_of w = Some x -> refs_commits_ok w ->
+  step (ACmd e (CSwitch [a] [])) w = (w', o, tr) ->
+  match a_switch a (abs w) with
+  | Some s' => o = OOk [] /\ abs w' = s' /\ frame w w'
+  | None => o = OErr /\ tr = [] /\ w' = w
+  end.
+Proof.
+  intros e a w x w' o tr Hi Hx Hok Hstep.
+  rewrite (step_loaded e _ w x) in Hstep by (try discriminate; assumption).
+  cbn [dispatch] in Hstep. rewrite cmd_switch_eq in Hstep.
+  pose proof (loaded_headc w x Hx) as Hh. unfold a_switch, abs, am_mem. cbn [fst snd].
+  destruct (x_headc x) as [[hid cm]|].
+  - destruct Hh as [Hg _]. rewrite Hg.
+    destruct (am_get (w_refs w) a) as [id|] eqn:Ea.
+    + destruct (Hok a id Ea) as [ca Hca]. rewrite Hca in Hstep.
+      cbn [fst snd ms_w ms_trace outcome_of app] in Hstep. inj3 Hstep.
+      split; [reflexivity|]. unfold switch_trace. split; [|frame_tac].
+      autorewrite with wfields. reflexivity.
+    + cbn [fst snd ms_w ms_trace outcome_of] in Hstep. inj3 Hstep. auto.
+  - rewrite Hh. cbn [fst snd ms_w ms_trace outcome_of] in Hstep. inj3 Hstep. auto.
+Qed.
+
+Theorem switch_create_refines : forall e name w x w' o tr,
+  w_inited w = true -> ctx_of w = Some x -> is_nil name = false ->
+  step (ACmd e (CSwitch [] name)) w = (w', o, tr) ->
+  match a_switch_create name (abs w) with
+  | Some s' => o = OOk [] /\ abs w' = s' /\ frame w w'
+  | None => o = OErr /\ tr = [] /\ w' = w
+  end.
+Proof.
+  intros e name w x w' o tr Hi Hx Hn Hstep.
+  rewrite (step_loaded e _ w x) in Hstep by (try discriminate; assumption).
+  cbn [dispatch] in Hstep. rewrite cmd_switch_create_eq in Hstep by exact Hn.
+  pose proof (loaded_headc w x Hx) as Hh. rewrite a_switch_create_eq. unfold abs. cbn [fst snd].
+  destruct (x_headc x) as [[hid cm]|].
+  - destruct Hh as [Hg Hcm]. rewrite Hg. rewrite Hcm in Hstep.
+    destruct (negb (am_mem (w_refs w) name) && valid_branch_name name);
+      cbn [fst snd ms_w ms_trace outcome_of app] in Hstep; inj3 Hstep.
+    + split; [reflexivity|]. unfold switch_create_trace. split; [|frame_tac].
+      autorewrite with wfields. reflexivity.
+    + auto.
+  - rewrite Hh. cbn [fst snd ms_w ms_trace outcome_of] in Hstep. inj3 Hstep. auto.
+Qed.
+
+Lemma update_ref_target_abs : forall w r h,
+  a_update_ref (commit_loads w) r h (abs w) =
+  match update_ref_target w r h with
+  | Some (name, id) => Some (name, am_set (w_refs w) name id)
+  | None => None
+  end.
+Proof.
+  intros w r h. unfold a_update_ref, update_ref_target, commit_loads, abs. cbn [fst snd].
+  destruct (re_search re_branchRegexp r && Nat.eqb (length h) 40 && forallb is_lower_hex h); [|reflexivity].
+  destruct (unhex h) as [id|]; [|reflexivity].
+  destruct (get_commit (w_objs w) id); cbn [andb]; [|reflexivity].
+  destruct (am_mem (w_refs w) (ref_leaf r)); reflexivity.
+Qed.
+
+Theorem update_ref_refines : forall e r h w x w' o tr,
+  w_inited w = true -> ctx_of w = Some x ->
+  step (ACmd e (CUpdateRef [r; h])) w = (w', o, tr) ->
+  match a_update_ref (commit_loads w) r h (abs w) with
+  | Some s' => o = OOk [] /\ abs w' = s' /\ frame w w'
+  | None => o = OErr /\ tr = [] /\ w' = w
+  end.
+Proof.
+  intros e r h w x w' o tr Hi Hx Hstep.
+  rewrite (step_loaded e _ w x) in Hstep by (try discriminate; assumption).
+  cbn [dispatch] in Hstep. rewrite cmd_update_ref_eq in Hstep. rewrite update_ref_target_abs.
+  destruct (update_ref_target w r h) as [[name id]|];
+    cbn [fst snd ms_w ms_trace outcome_of app] in Hstep; inj3 Hstep.
+  - split; [reflexivity|]. split; [|frame_tac]. unfold abs. autorewrite with wfields. reflexivity.
+  - auto.
+Qed.
+
+(* ================================================================== *)
+(** * 6. A refused operation changes nothing *)
+
+(* every parameter combination of [branch] other than the four meaningful
+   ones is refused by the first guard *)
+Lemma cmd_branch_shapes : forall e c args lst rn dl s,
+  (exists name, args = [name] /\ lst = false /\ rn = [] /\ dl = []) \/
+  (args = [] /\ lst = true /\ rn = [] /\ dl = []) \/
+  (args = [] /\ lst = false /\ is_nil rn = false /\ dl = []) \/
+  (args = [] /\ lst = false /\ rn = [] /\ is_nil dl = false) \/
+  cmd_branch e c args lst rn dl s = (Err, s).
+Proof.
+  intros e c args lst rn dl s.
+  destruct args as [|a [|b r]]; destruct lst; destruct rn as [|r0 rn]; destruct dl as [|d0 dl];
+    try (right; right; right; right; reflexivity).
+  - right. left. auto.
+  - right. right. right. left. auto.
+  - right. right. left. auto.
+  - left. exists a. auto.
+Qed.
+
+Lemma cmd_switch_shapes : forall e c args cr s,
+  (exists a, args = [a] /\ cr = []) \/
+  (args = [] /\ is_nil cr = false) \/
+  cmd_switch e c args cr s = (Err, s).
+Proof.
+  intros e c args cr s.
+  destruct args as [|a [|b r]]; destruct cr as [|c0 cr]; try (right; right; reflexivity).
+  - right. left. auto.
+  - left. exists a. auto.
+Qed.
+
+Definition branch_family (c : cmd) : Prop :=
+  match c with
+  | CBranch _ _ _ _ | CSwitch _ _ | CUpdateRef _ => True
+  | _ => False
+  end.
+
+(* The guards and lookups that can fail all come before the first write, with
+   two exceptions the model has: the log-existence check of [--rename] /
+   [--delete] (after [ERenameRef] / [EDelRef]) and the reload of the commit in
+   [Head.Update] (after [ESetHead]).  The first cannot fail when every branch
+   has its log ([blogs_cover_refs], an invariant of every history), the
+   second cannot when every branch names a commit ([refs_commits_ok], first
+   clause of [Inv.Connected]). *)
+Lemma branch_family_refused : forall e c x w r s',
+  branch_family c -> ctx_of w = Some x -> blogs_cover_refs w -> refs_commits_ok w ->
+  dispatch e c x (mkMS w [] None) = (r, s') ->
+  match r with Ok _ => True | Err => s' = mkMS w [] None | Panic => False end.
+Proof.
+  intros e c x w r s' Hfam Hx Hc Hok Hrun.
+  pose proof (loaded_headc w x Hx) as Hh.
+  destruct c; try contradiction Hfam; cbn [dispatch] in Hrun.
+  - (* branch *)
+    destruct (cmd_branch_shapes e x args list_flag rename delete (mkMS w [] None))
+      as [(name & -> & -> & -> & ->) | [(-> & -> & -> & ->) | [(-> & -> & Hn & ->) | [(-> & -> & -> & Hd) | Herr]]]].
+    + rewrite cmd_branch_create_eq in Hrun.
+      destruct (x_headc x) as [[hid cm]|];
+        [destruct (negb (am_mem (w_refs w) name) && valid_branch_name name)|];
+        injection Hrun as <- <-; auto.
+    + rewrite cmd_branch_list_eq in Hrun. injection Hrun as <- <-. exact Logic.I.
+    + rewrite cmd_branch_rename_eq in Hrun by exact Hn.
+      destruct (x_headc x) as [[hid cm]|]; [|injection Hrun as <- <-; reflexivity].
+      destruct Hh as [Hg _].
+      assert (Hm : am_mem (w_refs w) (w_head w) = true) by (unfold am_mem; rewrite Hg; reflexivity).
+      rewrite (Hc _ Hm) in Hrun.
+      destruct (negb (am_mem (w_refs w) rename) && am_mem (w_refs w) (w_head w) && valid_branch_name rename);
+        apply pair_equal_spec in Hrun; destruct Hrun as [<- <-]; auto.
+    + rewrite cmd_branch_delete_eq in Hrun by exact Hd.
+      destruct (negb (bytes_eqb delete (w_head w)) && am_mem (w_refs w) delete) eqn:Econd.
+      * apply andb_true_iff in Econd. destruct Econd as [_ Hm]. rewrite (Hc _ Hm) in Hrun.
+        apply pair_equal_spec in Hrun. destruct Hrun as [<- <-]. exact Logic.I.
+      * injection Hrun as <- <-. reflexivity.
+    + rewrite Herr in Hrun. injection Hrun as <- <-. reflexivity.
+  - (* switch *)
+    destruct (cmd_switch_shapes e x args create (mkMS w [] None))
+      as [(a & -> & ->) | [(-> & Hn) | Herr]].
+    + rewrite cmd_switch_eq in Hrun.
+      destruct (x_headc x) as [[hid cm]|]; [|injection Hrun as <- <-; reflexivity].
+      destruct (am_get (w_refs w) a) as [id|] eqn:Ea; [|injection Hrun as <- <-; reflexivity].
+      destruct (Hok a id Ea) as [ca Hca]. rewrite Hca in Hrun.
+      apply pair_equal_spec in Hrun. destruct Hrun as [<- <-]. exact Logic.I.
+    + rewrite cmd_switch_create_eq in Hrun by exact Hn.
+      destruct (x_headc x) as [[hid cm]|]; [|injection Hrun as <- <-; reflexivity].
+      destruct Hh as [_ Hcm]. rewrite Hcm in Hrun.
+      destruct (negb (am_mem (w_refs w) create) && valid_branch_name create);
+        apply pair_equal_spec in Hrun; destruct Hrun as [<- <-]; auto.
+    + rewrite Herr in Hrun. injection Hrun as <- <-. reflexivity.
+  - (* update-ref *)
+    destruct args as [|r0 [|h [|y rest]]]; try (injection Hrun as <- <-; reflexivity).
+    rewrite cmd_update_ref_eq in Hrun.
+    destruct (update_ref_target w r0 h) as [[name id]|];
+      apply pair_equal_spec in Hrun; destruct Hrun as [<- <-]; auto.
+Qed.
+
+Theorem refused_branch_ops_unchanged : forall e c w w' tr,
+  branch_family c -> blogs_cover_refs w -> refs_commits_ok w ->
+  step (ACmd e c) w = (w', OErr, tr) -> tr = [] /\ w' = w.
+Proof.
+  intros e c w w' tr Hfam Hc Hok Hstep.
+  assert (Hne : c <> CInit) by (intro Heq; subst c; exact Hfam).
+  destruct (w_inited w) eqn:Hi; [destruct (ctx_of w) as [x|] eqn:Hx|].
+  - rewrite (step_loaded e c w x Hne Hi Hx) in Hstep.
+    destruct (dispatch e c x (mkMS w [] None)) as [r s'] eqn:Erun.
+    pose proof (branch_family_refused e c x w r s' Hfam Hx Hc Hok Erun) as Hr.
+    cbn [fst snd] in Hstep. apply triple_inv in Hstep. destruct Hstep as (Hw & Ho & Ht).
+    destruct r; try discriminate Ho. subst s'. cbn [ms_w ms_trace] in Hw, Ht. auto.
+  - rewrite (step_not_loaded e c w Hne (or_intror Hx)) in Hstep.
+    apply triple_inv in Hstep. destruct Hstep as (Hw & _ & Ht). auto.
+  - rewrite (step_not_loaded e c w Hne (or_introl Hi)) in Hstep.
+    apply triple_inv in Hstep. destruct Hstep as (Hw & _ & Ht). auto.
+Qed.
+
+(* and none of the three ever panics *)
+Theorem branch_family_no_panic : forall e c w,
+  branch_family c -> blogs_cover_refs w -> refs_commits_ok w ->
+  snd (fst (step (ACmd e c) w)) <> OPanic.
+Proof.
+  intros e c w Hfam Hc Hok.
+  assert (Hne : c <> CInit) by (intro Heq; subst c; exact Hfam).
+  destruct (w_inited w) eqn:Hi; [destruct (ctx_of w) as [x|] eqn:Hx|].
+  - rewrite (step_loaded e c w x Hne Hi Hx).
+    destruct (dispatch e c x (mkMS w [] None)) as [r s'] eqn:Erun.
+    pose proof (branch_family_refused e c x w r s' Hfam Hx Hc Hok Erun) as Hr.
+    cbn [fst snd]. destruct r; [discriminate | discriminate | contradiction Hr].
+  - rewrite (step_not_loaded e c w Hne (or_intror Hx)). discriminate.
+  - rewrite (step_not_loaded e c w Hne (or_introl Hi)). discriminate.
+Qed.
+
+(* on every world a history reaches from [w_empty] the log check holds *)
+Corollary refused_branch_ops_unchanged_reachable : forall h e c w' tr,
+  branch_family c -> refs_commits_ok (run h w_empty) ->
+  step (ACmd e c) (run h w_empty) = (w', OErr, tr) -> tr = [] /\ w' = run h w_empty.
+Proof.
+  intros h e c w' tr Hfam Hok Hstep.
+  exact (refused_branch_ops_unchanged e c _ w' tr Hfam (blogs_cover_refs_run h) Hok Hstep).
+Qed.
+
+(* ---------- duplicate names are refused ---------- *)
+Theorem duplicate_branch_refused : forall e name w,
+  am_mem (w_refs w) name = true ->
+  step (ACmd e (CBranch [name] false [] [])) w = (w, OErr, []).
+Proof.
+  intros e name w Hm.
+  destruct (w_inited w) eqn:Hi; [destruct (ctx_of w) as [x|] eqn:Hx|];
+    try solve [apply step_not_loaded; [discriminate | auto]].
+  rewrite (step_loaded e _ w x) by (try discriminate; assumption).
+  cbn [dispatch]. rewrite cmd_branch_create_eq, Hm. destruct (x_headc x) as [[hid cm]|]; reflexivity.
+Qed.
+
+Theorem duplicate_switch_create_refused : forall e name w,
+  am_mem (w_refs w) name = true ->
+  step (ACmd e (CSwitch [] name)) w = (w, OErr, []).
+Proof.
+  intros e name w Hm.
+  destruct (w_inited w) eqn:Hi; [destruct (ctx_of w) as [x|] eqn:Hx|];
+    try solve [apply step_not_loaded; [discriminate | auto]].
+  rewrite (step_loaded e _ w x) by (try discriminate; assumption). cbn [dispatch].
+  destruct (is_nil name) eqn:Hn.
+  - destruct name; [|discriminate Hn]. reflexivity.
+  - rewrite cmd_switch_create_eq by exact Hn. rewrite Hm. destruct (x_headc x) as [[hid cm]|]; reflexivity.
+Qed.
+
+Theorem duplicate_rename_refused : forall e new w,
+  am_mem (w_refs w) new = true ->
+  step (ACmd e (CBranch [] false new [])) w = (w, OErr, []).
+Proof.
+  intros e new w Hm.
+  destruct (w_inited w) eqn:Hi; [destruct (ctx_of w) as [x|] eqn:Hx|];
+    try solve [apply step_not_loaded; [discriminate | auto]].
+  rewrite (step_loaded e _ w x) by (try discriminate; assumption). cbn [dispatch].
+  destruct (is_nil new) eqn:Hn.
+  - destruct new; [|discriminate Hn]. reflexivity.
+  - rewrite cmd_branch_rename_eq by exact Hn. rewrite Hm. destruct (x_headc x) as [[hid cm]|]; reflexivity.
+Qed.
+
+(* deleting the current branch or an unknown one is refused *)
+Theorem delete_current_refused : forall e w,
+  step (ACmd e (CBranch [] false [] (w_head w))) w = (w, OErr, []).
+Proof.
+  intros e w.
+  destruct (w_inited w) eqn:Hi; [destruct (ctx_of w) as [x|] eqn:Hx|];
+    try solve [apply step_not_loaded; [discriminate | auto]].
+  rewrite (step_loaded e _ w x) by (try discriminate; assumption). cbn [dispatch].
+  destruct (is_nil (w_head w)) eqn:Hn.
+  - destruct (w_head w); [|discriminate Hn]. reflexivity.
+  - rewrite cmd_branch_delete_eq by exact Hn. rewrite bytes_eqb_refl. reflexivity.
+Qed.
+
+Theorem delete_unknown_refused : forall e d w,
+  am_mem (w_refs w) d = false ->
+  step (ACmd e (CBranch [] false [] d)) w = (w, OErr, []).
+Proof.
+  intros e d w Hm.
+  destruct (w_inited w) eqn:Hi; [destruct (ctx_of w) as [x|] eqn:Hx|];
+    try solve [apply step_not_loaded; [discriminate | auto]].
+  rewrite (step_loaded e _ w x) by (try discriminate; assumption). cbn [dispatch].
+  destruct (is_nil d) eqn:Hn.
+  - destruct d; [|discriminate Hn]. reflexivity.
+  - rewrite cmd_branch_delete_eq by exact Hn. rewrite Hm, andb_false_r. reflexivity.
+Qed.
+
+(* ================================================================== *)
+(** * 7. [branch --list] and [rev-parse] report exactly the stored state *)
+
+Theorem branch_list_reports : forall e w x,
+  w_inited w = true -> ctx_of w = Some x ->
+  step (ACmd e (CBranch [] true [] [])) w = (w, OOk (branch_listing w), []).
+Proof.
+  intros e w x Hi Hx. rewrite (step_loaded e _ w x) by (try discriminate; assumption).
+  cbn [dispatch]. rewrite cmd_branch_list_eq. reflexivity.
+Qed.
+
+(* one line per branch, in the stored (sorted) order; the current one starred *)
+Lemma branch_listing_length : forall w, length (branch_listing w) = length (w_refs w).
+Proof. intro w. unfold branch_listing. apply map_length. Qed.
+
+Lemma branch_listing_nth : forall w i k v,
+  nth_error (w_refs w) i = Some (k, v) ->
+  nth_error (branch_listing w) i =
+    Some (if bytes_eqb k (w_head w) then str "* "%string ++ k else k).
+Proof.
+  intros w i k v H. unfold branch_listing. rewrite nth_error_map, H. cbn [option_map fst].
+  destruct (bytes_eqb k (w_head w)); reflexivity.
+Qed.
+
+(* the name [rev-parse] looks up: HEAD in any letter case is the current branch *)
+Definition rev_name (w : world) (a : bytes) : bytes :=
+  if bytes_eqb (map lower a) (str "head"%string) then w_head w else a.
+
+Fixpoint rev_parse_out (w : world) (args : list bytes) : option (list bytes) :=
+  match args with
+  | [] => Some []
+  | a :: r =>
+      match am_get (w_refs w) (rev_name w a), rev_parse_out w r with
+      | Some id, Some rest => Some (hex id :: rest)
+      | _, _ => None
+      end
+  end.
+
+Lemma cmd_rev_parse_eq : forall args s,
+  cmd_rev_parse args s =
+  (match rev_parse_out (ms_w s) args with Some out => Ok out | None => Err end, s).
+Proof.
+  intros args s. unfold cmd_rev_parse. rewrite ev_bind_getw.
+  induction args as [|a r IH]; [reflexivity|].
+  cbn [rev_parse_out]. fold (rev_name (ms_w s) a). rewrite ev_bind_of_opt.
+  destruct (am_get (w_refs (ms_w s)) (rev_name (ms_w s) a)) as [id|]; [|reflexivity].
+  unfold bind at 1. rewrite IH. destruct (rev_parse_out (ms_w s) r); reflexivity.
+Qed.
+
+Theorem rev_parse_reports : forall e args w x,
+  w_inited w = true -> ctx_of w = Some x ->
+  step (ACmd e (CRevParse args)) w =
+  (w, match rev_parse_out w args with Some out => OOk out | None => OErr end, []).
+Proof.
+  intros e args w x Hi Hx. rewrite (step_loaded e _ w x) by (try discriminate; assumption).
+  cbn [dispatch]. rewrite cmd_rev_parse_eq. cbn [fst snd ms_w ms_trace].
+  destruct (rev_parse_out w args); reflexivity.
+Qed.
+
+Lemma rev_parse_out_some : forall w args out,
+  rev_parse_out w args = Some out <->
+  Forall2 (fun a o => exists id, am_get (w_refs w) (rev_name w a) = Some id /\ o = hex id) args out.
+Proof.
+  intros w. induction args as [|a r IH]; intros out; cbn [rev_parse_out].
+  - split.
+    + intro H. injection H as <-. constructor.
+    + intro H. inversion H. reflexivity.
+  - split.
+    + intro H. destruct (am_get (w_refs w) (rev_name w a)) as [id|] eqn:Ea; [|discriminate H].
+      destruct (rev_parse_out w r) as [rest|] eqn:Er; [|discriminate H].
+      injection H as <-. constructor; [exists id; auto | apply IH; reflexivity].
+    + intro H. inversion H as [|a0 o l l' (id & Hid & Ho) Hrest]; subst.
+      rewrite Hid. apply IH in Hrest. rewrite Hrest. reflexivity.
+Qed.
+
+Lemma rev_parse_out_none : forall w args,
+  rev_parse_out w args = None <-> exists a, In a args /\ am_get (w_refs w) (rev_name w a) = None.
+Proof.
+  intros w. induction args as [|a r IH]; cbn [rev_parse_out].
+  - split; [discriminate | intros (a & [] & _)].
+  - split.
+    + intro H. destruct (am_get (w_refs w) (rev_name w a)) as [id|] eqn:Ea.
+      * destruct (rev_parse_out w r) as [rest|] eqn:Er; [discriminate H|].
+        destruct (proj1 IH eq_refl) as (b & Hb & Hn). exists b. split; [right; exact Hb | exact Hn].
+      * exists a. split; [left; reflexivity | exact Ea].
+    + intros (b & [<-|Hb] & Hn).
+      * rewrite Hn. reflexivity.
+      * destruct (am_get (w_refs w) (rev_name w a)); [|reflexivity].
+        rewrite (proj2 IH (ex_intro _ b (conj Hb Hn))). reflexivity.
+Qed.
+
+Lemma rev_name_head : forall w,
+  rev_name w (str "HEAD"%string) = w_head w /\
+  rev_name w (str "head"%string) = w_head w /\
+  rev_name w (str "Head"%string) = w_head w.
+Proof. intro w. repeat split; reflexivity. Qed.
+
+(* any other name is looked up as it is *)
+Lemma rev_name_other : forall w a, map lower a <> str "head"%string -> rev_name w a = a.
+Proof.
+  intros w a H. unfold rev_name. apply bytes_eqb_neq in H. rewrite H. reflexivity.
+Qed.
+
+(* ================================================================== *)
+(** * 8. The HEAD and branch file codecs *)
+
+Lemma split_all_nonempty : forall sep s, split_all sep s <> [].
+Proof.
+  intros sep s. destruct s as [|c r]; cbn [split_all]; [discriminate|].
+  destruct (beqb c sep); [discriminate|]. destruct (split_all sep r); discriminate.
+Qed.
+
+(* strings.Split distributes over a separator *)
+Lemma split_all_app_sep : forall sep a s,
+  split_all sep (a ++ sep :: s) = split_all sep a ++ split_all sep s.
+Proof.
+  intros sep a s. induction a as [|c a IH]; cbn [app split_all].
+  - rewrite beqb_refl. reflexivity.
+  - destruct (beqb c sep); [rewrite IH; reflexivity|].
+    rewrite IH. pose proof (split_all_nonempty sep a) as Hne.
+    destruct (split_all sep a) as [|h t]; [contradiction Hne; reflexivity | reflexivity].
+Qed.
+
+Lemma split_all_no_sep : forall sep s, contains_byte sep s = false -> split_all sep s = [s].
+Proof.
+  intros sep s. induction s as [|c r IH]; intro H; cbn [split_all contains_byte] in *.
+  - reflexivity.
+  - apply orb_false_elim in H. destruct H as [Hc Hr]. rewrite Hc, (IH Hr). reflexivity.
+Qed.
+
+Lemma last_app_nonempty : forall A (l1 l2 : list A) d, l2 <> [] -> last (l1 ++ l2) d = last l2 d.
+Proof.
+  intros A l1 l2 d Hne. induction l1 as [|x l1 IH]; [reflexivity|].
+  cbn [app]. destruct (l1 ++ l2) as [|y r] eqn:E.
+  - apply app_eq_nil in E. destruct E as [_ E]. contradiction.
+  - rewrite <- IH. reflexivity.
+Qed.
+
+(* the last path component of "<anything>/<n>" is <n> when <n> has no slash *)
+Lemma ref_leaf_app : forall a n,
+  contains_byte c_slash n = false -> ref_leaf (a ++ c_slash :: n) = n.
+Proof.
+  intros a n Hn. unfold ref_leaf. rewrite split_all_app_sep.
+  rewrite last_app_nonempty by apply split_all_nonempty.
+  rewrite split_all_no_sep by exact Hn. reflexivity.
+Qed.
+
+Lemma valid_branch_name_parts : forall n,
+  valid_branch_name n = true ->
+  n <> [] /\ n <> [x2e] /\ n <> [x2e; x2e] /\
+  contains_byte c_slash n = false /\ contains_byte x5c n = false.
+Proof.
+  intros n H. unfold valid_branch_name in H.
+  repeat (apply andb_true_iff in H; destruct H as [H ?]).
+  repeat match goal with Hn : negb _ = true |- _ => apply negb_true_iff in Hn end.
+  repeat split; try assumption.
+  - intro Heq. subst n. discriminate.
+  - apply bytes_eqb_neq. assumption.
+  - apply bytes_eqb_neq. assumption.
+Qed.
+
+(* Head.Update writes "ref: refs/heads/<n>"; NewHead reads <n> back, even
+   when <n> itself contains ": " (the FIRST ": " is the one after "ref") *)
+Theorem parse_head_render : forall n,
+  valid_branch_name n = true -> ~ In c_nl n -> parse_head (render_head n) = Some n.
+Proof.
+  intros n Hv Hnl. destruct (valid_branch_name_parts n Hv) as (Hne & _ & _ & Hsl & _).
+  unfold parse_head, render_head, head_prefix.
+  rewrite head_line_accepts by assumption.
+  change (str "ref: refs/heads/"%string ++ n)
+    with (str "ref"%string ++ (x3a :: [c_sp]) ++ (str "refs/heads"%string ++ c_slash :: n)).
+  rewrite split1s_app_nofirst.
+  - fold (ref_leaf (str "refs/heads"%string ++ c_slash :: n)). rewrite ref_leaf_app by exact Hsl. reflexivity.
+  - cbn. intros [H|[H|[H|[]]]]; discriminate H.
+Qed.
+
+(* branch.write / loadHash *)
+Theorem parse_ref_render : forall id, length id = 20 -> parse_ref (render_ref id) = Some id.
+Proof. intros id Hlen. unfold parse_ref, render_ref. apply read_hash_hex. exact Hlen. Qed.
+
+(* the ids [branch] and [update-ref] store have 20 bytes when they name a stored object *)
+Lemma get_commit_id_length : forall st id c, get_commit st id = Some c -> length id = 20.
+Proof.
+  intros st id c H. unfold get_commit, get_kind in H.
+  destruct (get_obj st id) as [kd|] eqn:E; [|discriminate H].
+  exact (get_obj_id_length st id kd E).
+Qed.
+
+(* update-ref's own decoding of its first argument agrees with the HEAD codec:
+   for "refs/heads/<n>" with a valid <n> the branch addressed is <n> *)
+Lemma ref_leaf_full_name : forall n,
+  contains_byte c_slash n = false -> ref_leaf (str "refs/heads/"%string ++ n) = n.
+Proof.
+  intros n Hn. change (str "refs/heads/"%string ++ n) with (str "refs/heads"%string ++ c_slash :: n).
+  apply ref_leaf_app. exact Hn.
+Qed.
+
+Lemma branch_regexp_accepts : forall n,
+  n <> [] -> ~ In c_nl n -> re_search re_branchRegexp (str "refs/heads/"%string ++ n) = true.
+Proof.
+  intros n Hne Hnl. apply re_search_spec.
+  exists [], (str "refs/heads/"%string ++ n), [].
+  split; [cbn [app]; symmetry; apply app_nil_r|].
+  split; [|split; intros _; reflexivity].
+  unfold re_branchRegexp. cbn [p_body]. apply lang_RCat.
+  exists (str "refs/heads/"%string), n. split; [reflexivity|].
+  split; [apply lang_RLit; reflexivity|].
+  apply lang_plus_nonl. split; [exact Hne | exact Hnl].
+Qed.
+
+(* ================================================================== *)
+(** * 9. Examples (all by computation) *)
+
+Section Examples.
+  Local Open Scope string_scope.
+  Let ex_env : env := mkEnv 1700000000 0.
+  Let cmd_ (c : cmd) : action := ACmd ex_env c.
+
+  (* init, identity, one file, one commit *)
+  Let ex_base : list action :=
+    [cmd_ CInit;
+     cmd_ (CConfig false [str "user.name"; str "t"]);
+     cmd_ (CConfig false [str "user.email"; str "t@x.io"]);
+     AEdit (UWrite (str "f") (str "x"));
+     cmd_ (CAdd [str "f"]);
+     cmd_ (CCommit (str "m"))].
+  Let ex_w0 : world := run ex_base w_empty.
+
+  (* names that are prefixes of each other, added in non-sorted order *)
+  Let ex_add : list action :=
+    [cmd_ (CBranch [str "ab"] false [] []); cmd_ (CBranch [str "a.b"] false [] []);
+     cmd_ (CBranch [str "a"] false [] []); cmd_ (CBranch [str "a-b"] false [] [])].
+  Let ex_w1 : world := run ex_add ex_w0.
+
+  Example ex_sorted_names :
+    map fst (w_refs ex_w1) = [str "a"; str "a-b"; str "a.b"; str "ab"; str "main"].
+  Proof. vm_compute. reflexivity. Qed.
+
+  Example ex_same_commit :
+    forall n, In n [str "a"; str "a-b"; str "a.b"; str "ab"] ->
+              am_get (w_refs ex_w1) n = am_get (w_refs ex_w1) (str "main").
+  Proof. intros n [<-|[<-|[<-|[<-|[]]]]]; vm_compute; reflexivity. Qed.
+
+  Example ex_listing :
+    snd (fst (step (cmd_ (CBranch [] true [] [])) ex_w1))
+    = OOk [str "a"; str "a-b"; str "a.b"; str "ab"; str "* main"].
+  Proof. vm_compute. reflexivity. Qed.
+
+  (* on the plain map: any insertion order gives the same sorted list *)
+  Example ex_amap_order :
+    am_keys (am_set (am_set (am_set (am_set [] (str "ab") 1) (str "a.b") 2) (str "a") 3) (str "a-b") 4)
+    = [str "a"; str "a-b"; str "a.b"; str "ab"]
+    /\ am_set (am_set (am_set (am_set [] (str "ab") 1) (str "a.b") 2) (str "a") 3) (str "a-b") 4
+     = am_set (am_set (am_set (am_set [] (str "a-b") 4) (str "a") 3) (str "a.b") 2) (str "ab") 1.
+  Proof. vm_compute. split; reflexivity. Qed.
+
+  (* rename the current branch, delete one, add after delete: still sorted,
+     HEAD follows the rename, rev-parse reports the stored ids *)
+  Let ex_more : list action :=
+    [cmd_ (CBranch [] false (str "aa") []);          (* main -> aa *)
+     cmd_ (CBranch [] false [] (str "a.b"));
+     cmd_ (CSwitch [] (str "a+"));                   (* switch -c *)
+     cmd_ (CBranch [str "a.b"] false [] [])].
+  Let ex_w2 : world := run ex_more ex_w1.
+
+  Example ex_after_rename :
+    map fst (w_refs ex_w2) = [str "a"; str "a+"; str "a-b"; str "a.b"; str "aa"; str "ab"]
+    /\ w_head ex_w2 = str "a+"
+    /\ map fst (w_blogs ex_w2) = map fst (w_refs ex_w2).
+  Proof. vm_compute. repeat split; reflexivity. Qed.
+
+  Example ex_rev_parse :
+    snd (fst (step (cmd_ (CRevParse [str "HEAD"; str "aa"; str "Head"])) ex_w2))
+    = match am_get (w_refs ex_w2) (str "aa") with
+      | Some id => OOk [hex id; hex id; hex id]
+      | None => OErr
+      end
+    /\ snd (fst (step (cmd_ (CRevParse [str "aa"; str "main"])) ex_w2)) = OErr.
+  Proof. vm_compute. split; reflexivity. Qed.
+
+  (* a branch name containing ": " survives the HEAD file *)
+  Example ex_head_colon : parse_head (render_head (str "a: b")) = Some (str "a: b").
+  Proof. vm_compute. reflexivity. Qed.
+
+  Example ex_head_colon_world :
+    let w := step_w (cmd_ (CSwitch [] (str "a: b"))) ex_w0 in
+    w_head w = str "a: b" /\ parse_head (render_head (w_head w)) = Some (w_head w).
+  Proof. vm_compute. split; reflexivity. Qed.
+
+  (* hostile names are invalid *)
+  Example ex_hostile_names :
+    map valid_branch_name [str "../../HEAD"; str "a/b"; str ".."; str ""; str "x\y"; str "."]
+    = [false; false; false; false; false; false].
+  Proof. vm_compute. reflexivity. Qed.
+
+  Example ex_hostile_refused :
+    forall n, In n [str "../../HEAD"; str "a/b"; str ".."; str "x\y"; str "."] ->
+      step (cmd_ (CBranch [n] false [] [])) ex_w0 = (ex_w0, OErr, [])
+      /\ step (cmd_ (CSwitch [] n)) ex_w0 = (ex_w0, OErr, [])
+      /\ step (cmd_ (CBranch [] false n [])) ex_w0 = (ex_w0, OErr, []).
+  Proof. intros n [<-|[<-|[<-|[<-|[<-|[]]]]]]; vm_compute; repeat split; reflexivity. Qed.
+
+  (* ---- behaviour recorded as it is ---- *)
+  (* [update-ref]: the pattern is unanchored and the branch addressed is what
+     follows the LAST '/': "xrefs/heads/q/a" addresses branch "a"; HEAD then
+     names that branch *)
+  Example ex_update_ref_leaf :
+    match am_get (w_refs ex_w1) (str "main") with
+    | Some id =>
+        let w := step_w (cmd_ (CUpdateRef [str "xrefs/heads/q/a"; hex id])) ex_w1 in
+        am_get (w_refs w) (str "a") = Some id /\ w_head w = str "a"
+    | None => False
+    end.
+  Proof. vm_compute. split; reflexivity. Qed.
+
+  (* The two late failure points.  Neither world below is reachable (a branch
+     whose file does not hold a commit id; a branch without its log), which is
+     what [refs_commits_ok] and [blogs_cover_refs] exclude; in them a REFUSED
+     command has already written. *)
+  Let zero20 : bytes := repeat x00 20.
+  Let ex_bad_ref : world := set_refs ex_w0 (am_set (w_refs ex_w0) (str "bad") zero20).
+  Example ex_switch_writes_before_refusing :
+    snd (step (cmd_ (CSwitch [str "bad"] [])) ex_bad_ref) = [ESetHead (str "bad")]
+    /\ snd (fst (step (cmd_ (CSwitch [str "bad"] [])) ex_bad_ref)) = OErr.
+  Proof. vm_compute. split; reflexivity. Qed.
+
+  Let ex_no_log : world := set_blogs ex_w1 (am_del (w_blogs ex_w1) (str "ab")).
+  Example ex_delete_writes_before_refusing :
+    snd (step (cmd_ (CBranch [] false [] (str "ab"))) ex_no_log) = [EDelRef (str "ab")]
+    /\ snd (fst (step (cmd_ (CBranch [] false [] (str "ab"))) ex_no_log)) = OErr
+    /\ am_mem (w_refs (step_w (cmd_ (CBranch [] false [] (str "ab"))) ex_no_log)) (str "ab") = false.
+  Proof. vm_compute. repeat split; reflexivity. Qed.
+End Examples.
+
+(* ================================================================== *)
+Print Assumptions am_ext.
+Print Assumptions refs_sorted_run.
+Print Assumptions refs_sorted_fault.
+Print Assumptions blogs_cover_refs_run.
+Print Assumptions Inv2_step.
+Print Assumptions branch_create_refines.
+Print Assumptions branch_delete_refines.
+Print Assumptions branch_rename_refines.
+Print Assumptions switch_refines.
+Print Assumptions switch_create_refines.
+Print Assumptions update_ref_refines.
+Print Assumptions a_branch_spec.
+Print Assumptions a_delete_spec.
+Print Assumptions a_rename_spec.
+Print Assumptions a_update_ref_spec.
+Print Assumptions refused_branch_ops_unchanged.
+Print Assumptions refused_branch_ops_unchanged_reachable.
+Print Assumptions branch_family_no_panic.
+Print Assumptions duplicate_branch_refused.
+Print Assumptions duplicate_switch_create_refused.
+Print Assumptions duplicate_rename_refused.
+Print Assumptions branch_list_reports.
+Print Assumptions rev_parse_reports.
+Print Assumptions parse_head_render.
+Print Assumptions parse_ref_render.
+Print Assumptions ex_sorted_names.
+Print Assumptions ex_switch_writes_before_refusing.
